@@ -3,455 +3,16 @@
 package main
 
 import (
-	"bufio"
-	"bytes"
-	_ "embed"
 	"encoding/json"
 	"flag"
 	"fmt"
 	"os"
-	"os/exec"
-	"path/filepath"
-	"regexp"
-	"sort"
-	"strconv"
 	"strings"
-	"sync"
 	"time"
 
+	"verif/diffexec"
 	"verif/ev"
-	"verif/gl"
-	"verif/progenum"
 )
-
-//go:embed rt.go.txt
-var rtSource string
-
-type result struct {
-	prog   progenum.Prog
-	kind   string // "" ok
-	msg    string
-	vecs   int
-	skips  int
-	reject string
-}
-
-var numRe = regexp.MustCompile(`[0-9]+`)
-
-func normalize(s string) string {
-	s = numRe.ReplaceAllString(s, "N")
-	if len(s) > 90 {
-		s = s[:90]
-	}
-	return s
-}
-
-type runCfg struct {
-	prop     string
-	tier     string
-	goose    string
-	work     string
-	only     string // run only this descriptor (replay)
-	verbose  bool
-	bridge   string
-	exclude  map[string]string // descriptor -> crash description (declarations on which goose panics)
-}
-
-func selectProgs(cfg runCfg) []progenum.Prog {
-	var progs []progenum.Prog
-	poss := progenum.Positions()
-	quickPos := map[string]bool{"P01_tail": true, "P02_nontail": true, "P03_if_then_nontail": true, "P04_if_early_return": true, "P05_else_nontail": true,
-		"P06_if_else_returns": true, "P08_for3_body": true, "P09_loop_before_control": true, "P13_block_nontail": true, "P15_closure_body": true, "P19_method_ptr": true}
-	var forms []progenum.Form
-	switch cfg.prop {
-	case "C01":
-		forms = append(progenum.CoreForms(), progenum.DedicatedForms()...)
-	case "C02":
-		forms = progenum.CatalogueForms()
-	}
-	for _, pos := range poss {
-		if cfg.tier == "quick" && !quickPos[pos.ID] && cfg.only == "" {
-			continue
-		}
-		for _, fm := range forms {
-			if pos.InMapLoop && fm.WritesM {
-				continue
-			}
-			if pos.ID == "P15_closure_body" && strings.Contains(fm.Code, "return a, b, sv") {
-				continue // the form returns from the enclosing function
-			}
-			pr := progenum.Build(pos, fm)
-			if cfg.only != "" && pr.Name != cfg.only {
-				continue
-			}
-			if _, crashed := cfg.exclude[pr.Name]; crashed {
-				continue
-			}
-			if _, crashed := cfg.exclude["DECL:"+fm.ID]; crashed {
-				continue
-			}
-			progs = append(progs, pr)
-		}
-	}
-	return progs
-}
-
-func must(err error) {
-	if err != nil {
-		fmt.Fprintln(os.Stderr, "harness error:", err)
-		os.Exit(3)
-	}
-}
-
-// lineIndex maps (file, line) to the function defined there.
-type lineIndex map[string][]struct {
-	line int
-	name string
-}
-
-var funcRe = regexp.MustCompile(`^func (?:\([a-z]+ \*?S\) M)?(F_[A-Za-z0-9_]+)\(`)
-
-func indexFile(path, content string, idx lineIndex) {
-	for i, l := range strings.Split(content, "\n") {
-		if strings.HasPrefix(l, "// DECLS ") {
-			idx[path] = append(idx[path], struct {
-				line int
-				name string
-			}{i + 1, "DECL:" + strings.TrimPrefix(l, "// DECLS ")})
-		}
-		if l == "// ENDDECLS" {
-			idx[path] = append(idx[path], struct {
-				line int
-				name string
-			}{i + 1, ""})
-		}
-		if m := funcRe.FindStringSubmatch(l); m != nil {
-			idx[path] = append(idx[path], struct {
-				line int
-				name string
-			}{i + 1, m[1]})
-		}
-	}
-}
-
-func (idx lineIndex) lookup(file string, line int) string {
-	name := ""
-	for _, e := range idx[filepath.Base(file)] {
-		if e.line <= line {
-			name = e.name
-		}
-	}
-	return name
-}
-
-var srcRe = regexp.MustCompile(`src: (\S+?):(\d+):\d+`)
-var catRe = regexp.MustCompile(`^\[([a-z()\-]+)\]: (.*)$`)
-
-func run(cfg runCfg, acc *ev.Acc) {
-	progs := selectProgs(cfg)
-	gen := filepath.Join(cfg.work, "gen")
-	must(os.MkdirAll(gen, 0755))
-	pk := progenum.Render(progs, rtSource)
-	idx := lineIndex{}
-	for rel, c := range pk.Files {
-		fp := filepath.Join(gen, rel)
-		os.MkdirAll(filepath.Dir(fp), 0755)
-		must(os.WriteFile(fp, []byte(c), 0644))
-		if strings.HasPrefix(rel, "p/a_") || strings.HasPrefix(rel, "p/b_") {
-			indexFile(filepath.Base(rel), c, idx)
-		}
-	}
-	sum, _ := os.ReadFile("/repo/go.sum")
-	os.WriteFile(filepath.Join(gen, "go.sum"), sum, 0644)
-
-	// --- Go side
-	var goOut bytes.Buffer
-	build := exec.Command("go", "build", "-o", filepath.Join(cfg.work, "run.bin"), "./cmd/run")
-	build.Dir = gen
-	if out, err := build.CombinedOutput(); err != nil {
-		fmt.Fprintln(os.Stderr, "harness error: generated programs do not compile:\n"+tailStr(string(out), 3000))
-		os.Exit(3)
-	}
-	rc := exec.Command(filepath.Join(cfg.work, "run.bin"))
-	rc.Stdout = &goOut
-	var goErr bytes.Buffer
-	rc.Stderr = &goErr // println() of generated programs
-	must(rc.Run())
-	goRes := map[string]map[int]string{}
-	sc := bufio.NewScanner(&goOut)
-	sc.Buffer(make([]byte, 1<<20), 1<<24)
-	for sc.Scan() {
-		parts := strings.SplitN(sc.Text(), "|", 3)
-		if len(parts) != 3 {
-			continue
-		}
-		vi, _ := strconv.Atoi(parts[1])
-		if goRes[parts[0]] == nil {
-			goRes[parts[0]] = map[int]string{}
-		}
-		goRes[parts[0]][vi] = parts[2]
-	}
-
-	// --- goose
-	outDir := filepath.Join(cfg.work, "out")
-	gc := exec.Command(cfg.goose, "-out", outDir, "-ignore-errors", "./p")
-	gc.Dir = gen
-	var gerr bytes.Buffer
-	gc.Stderr = &gerr
-	gc.Stdout = &gerr
-	gerrRun := gc.Run()
-	exit := 0
-	if ee, ok := gerrRun.(*exec.ExitError); ok {
-		exit = ee.ExitCode()
-	} else if gerrRun != nil {
-		must(gerrRun)
-	}
-	if exit != 0 && exit != 1 {
-		// goose crashed: find the crashing declarations through the bridge, set them aside, start over
-		if cfg.bridge != "" && len(cfg.exclude) < 400 {
-			found := findCrashers(cfg, gen, idx)
-			if len(found) > 0 {
-				for k, v := range found {
-					cfg.exclude[k] = v
-				}
-				os.RemoveAll(gen)
-				os.RemoveAll(outDir)
-				run(cfg, acc)
-				return
-			}
-		}
-		acc.Violate(ev.Violation{Key: cfg.prop + "/goose-crash", Msg: "goose exited with status " + fmt.Sprint(exit) + ": " + tailStr(gerr.String(), 1500), Replay: map[string]any{"tier": cfg.tier}})
-		return
-	}
-	rejected := map[string]string{}
-	blocks := strings.Split(gerr.String(), "\n\n")
-	for _, b := range blocks {
-		m := srcRe.FindStringSubmatch(b)
-		if m == nil {
-			continue
-		}
-		line, _ := strconv.Atoi(m[2])
-		name := idx.lookup(m[1], line)
-		cat := "?"
-		for _, l := range strings.Split(b, "\n") {
-			l = strings.TrimPrefix(strings.TrimSpace(l), "conversion failed: ")
-			if cm := catRe.FindStringSubmatch(l); cm != nil {
-				cat = cm[1] + ": " + cm[2]
-				break
-			}
-		}
-		if name != "" {
-			rejected[name] = cat
-		}
-	}
-	vb, err := os.ReadFile(filepath.Join(outDir, "genmod", "p.v"))
-	if err != nil {
-		acc.Violate(ev.Violation{Key: cfg.prop + "/no-output", Msg: "goose wrote no file for the generated package: " + tailStr(gerr.String(), 1500)})
-		return
-	}
-	file, perr := gl.ParseFile(string(vb))
-	if perr != nil {
-		acc.Violate(ev.Violation{Key: cfg.prop + "/output-does-not-parse/" + normalize(perr.Error()), Msg: "the emitted file is not well-formed: " + perr.Error(), Replay: map[string]any{"tier": cfg.tier}})
-		return
-	}
-	if cfg.verbose {
-		fmt.Println(string(vb))
-	}
-
-	// --- GooseLang side, in parallel
-	vecs := progenum.Vectors()
-	results := make([]result, len(progs))
-	var wg sync.WaitGroup
-	sem := make(chan struct{}, 16)
-	for i := range progs {
-		wg.Add(1)
-		sem <- struct{}{}
-		go func(i int) {
-			defer wg.Done()
-			defer func() { <-sem }()
-			results[i] = evalProg(progs[i], file, rejected, goRes[progs[i].Name], vecs, cfg)
-		}(i)
-	}
-	wg.Wait()
-	report(cfg, results, acc)
-}
-
-// findCrashers asks the bridge tool which declarations make the translator panic.
-func findCrashers(cfg runCfg, gen string, idx lineIndex) map[string]string {
-	c := exec.Command(cfg.bridge, "./p")
-	c.Dir = gen
-	out, err := c.Output()
-	if err != nil {
-		return nil
-	}
-	var pkgs []struct {
-		Decls []struct {
-			File     string `json:"file"`
-			Line     int    `json:"line"`
-			GoName   string `json:"go_name"`
-			Panic    string `json:"panic"`
-			PanicTop string `json:"panic_top"`
-		} `json:"decls"`
-	}
-	if json.Unmarshal(out, &pkgs) != nil {
-		return nil
-	}
-	found := map[string]string{}
-	for _, p := range pkgs {
-		for _, d := range p.Decls {
-			if d.Panic == "" {
-				continue
-			}
-			name := idx.lookup(d.File, d.Line)
-			if name != "" {
-				found[name] = d.Panic + " @ " + d.PanicTop
-			}
-		}
-	}
-	return found
-}
-
-func evalProg(p progenum.Prog, file *gl.File, rejected map[string]string, goRes map[int]string, vecs []progenum.Vector, cfg runCfg) result {
-	r := result{prog: p}
-	if why, ok := rejected["DECL:"+p.Form.ID]; ok {
-		rejected[p.Name] = "(helper declaration) " + why
-	}
-	if why, ok := rejected[p.Name]; ok {
-		r.reject = why
-		r.kind, r.msg = "rejected:"+normalize(why), "goose rejects the declaration: "+why
-		return r
-	}
-	for _, b := range file.Bad {
-		if b.Name == p.Name || b.Name == "S__M"+p.Name {
-			r.kind, r.msg = "malformed-output:"+normalize(b.Err), "the emitted definition is not well-formed GooseLang: "+b.Err+"\n"+b.Raw
-			return r
-		}
-	}
-	if _, ok := file.Defs[p.Name]; !ok {
-		r.kind, r.msg = "missing-definition", "no Definition "+p.Name+" in the emitted file and no error reported"
-		return r
-	}
-	for vi, v := range vecs {
-		want, ok := goRes[vi]
-		if !ok {
-			r.kind, r.msg = "HARNESS", fmt.Sprintf("no Go result for vector %d", vi)
-			return r
-		}
-		if want == "PANIC" {
-			r.skips++
-			continue
-		}
-		in := gl.New(file)
-		in.Fuel = 400000
-		val, err := in.Call(p.Name, gl.VInt{W: 64, N: v.X}, gl.VInt{W: 64, N: v.Y}, gl.VInt{W: 32, N: uint64(v.W)}, gl.VInt{W: 8, N: uint64(v.C)}, gl.VBool(v.T), gl.VStr(v.S))
-		r.vecs++
-		if err != nil {
-			kind := "stuck"
-			if _, isDiv := err.(*gl.Diverged); isDiv {
-				kind = "diverged"
-			}
-			r.kind = kind + ":" + normalize(strings.TrimPrefix(strings.TrimPrefix(err.Error(), "stuck: "), "diverged: "))
-			r.msg = fmt.Sprintf("on input %+v Go returns %s but the emitted GooseLang is %s", v, short(want), err.Error())
-			return r
-		}
-		got := progenum.DumpGLTuple(in, val, p.Ret)
-		if got != want {
-			r.kind = "value-mismatch:" + diffField(got, want)
-			r.msg = fmt.Sprintf("on input %+v Go returns\n   %s\nthe emitted GooseLang returns\n   %s", v, want, got)
-			return r
-		}
-	}
-	return r
-}
-
-var retNames = strings.Split("a, b, sv, sp, p, xs, ts, m, r, r32, r8, rb, rs", ", ")
-
-func diffField(got, want string) string {
-	g, w := strings.Split(got, " ; "), strings.Split(want, " ; ")
-	var d []string
-	for i := range w {
-		if i >= len(g) || g[i] != w[i] {
-			n := fmt.Sprint(i)
-			if len(w) == len(retNames) {
-				n = retNames[i]
-			}
-			tag := ""
-			if i < len(g) && strings.Contains(g[i], "!want-") {
-				tag = "(" + g[i][strings.Index(g[i], "!want-"):strings.Index(g[i], "!want-")+min(len(g[i])-strings.Index(g[i], "!want-"), 14)] + ")"
-				tag = normalize(tag)
-			}
-			d = append(d, n+tag)
-		}
-	}
-	return strings.Join(d, ",")
-}
-
-func short(s string) string {
-	if len(s) > 160 {
-		return s[:160] + "…"
-	}
-	return s
-}
-
-func tailStr(s string, n int) string {
-	if len(s) > n {
-		return "…" + s[len(s)-n:]
-	}
-	return s
-}
-
-func report(cfg runCfg, results []result, acc *ev.Acc) {
-	for name, why := range cfg.exclude {
-		acc.Add("declarations_on_which_goose_panics", 1)
-		acc.Set("crash_sites", normalize(why))
-		if cfg.prop == "C01" {
-			acc.Violate(ev.Violation{Key: "C01/crash/" + name + "/" + normalize(why), Msg: "goose panics on a program of the supported subset: " + name + ": " + why, Replay: map[string]any{"descriptor": name}})
-		} else {
-			acc.Note("goose panics (neither conversion error nor translation; judged by C07): " + name + ": " + normalize(why))
-		}
-	}
-	for _, r := range results {
-		fam := r.prog.Form.Family
-		if fam == "" {
-			fam = "core"
-		}
-		acc.Add("programs", 1)
-		acc.Add("evaluations", int64(r.vecs))
-		acc.Add("inputs_skipped_go_panic", int64(r.skips))
-		if r.kind == "HARNESS" {
-			fmt.Fprintln(os.Stderr, "harness error:", r.prog.Name, r.msg)
-			os.Exit(3)
-		}
-		if r.reject != "" {
-			acc.Add("rejected", 1)
-		} else {
-			acc.Add("accepted", 1)
-		}
-		if r.vecs > 0 {
-			acc.Set("nontrivial", r.prog.Name)
-		}
-		acc.Set("forms", r.prog.Form.ID)
-		acc.Set("positions", r.prog.Pos)
-		bad := r.kind != ""
-		if cfg.prop == "C02" && r.reject != "" {
-			bad = false // rejection is always acceptable outside the subset
-			acc.Set("rejecting_guards", normalize(r.reject))
-		}
-		if bad {
-			acc.Violate(ev.Violation{
-				Key:    fmt.Sprintf("%s/%s/%s/%s/%s", cfg.prop, fam, r.prog.Form.ID, r.prog.Pos, r.kind),
-				Msg:    fmt.Sprintf("form %s at %s: %s\n--- Go source ---\n%s", r.prog.Form.ID, r.prog.Pos, r.msg, r.prog.Form.Code),
-				Replay: map[string]any{"descriptor": r.prog.Name, "form": r.prog.Form, "position": r.prog.Pos},
-			})
-		}
-	}
-	sort.Slice(results, func(i, j int) bool { return results[i].prog.Name < results[j].prog.Name })
-	if len(results) > 0 {
-		mid := results[len(results)/2]
-		acc.Sample(map[string]any{"descriptor": mid.prog.Name, "go_source": mid.prog.Source, "vectors_compared": mid.vecs}, 1)
-		acc.Sample(map[string]any{"descriptor": results[0].prog.Name, "form": results[0].prog.Form.Code}, 2)
-	}
-}
 
 func main() {
 	prop := flag.String("prop", "C01", "")
@@ -465,7 +26,7 @@ func main() {
 	start := time.Now()
 	work, _ := os.MkdirTemp("", "verif-"+strings.ToLower(*prop)+"-")
 	defer os.RemoveAll(work)
-	cfg := runCfg{prop: *prop, tier: *tier, goose: *goose, work: work, only: *only, verbose: *verbose, bridge: *bridgeBin, exclude: map[string]string{}}
+	cfg := diffexec.Cfg{Prop: *prop, Tier: *tier, Goose: *goose, Work: work, Only: *only, Verbose: *verbose, Bridge: *bridgeBin, Exclude: map[string]string{}}
 	if *replay != "" {
 		var rf struct {
 			Replay struct {
@@ -477,9 +38,9 @@ func main() {
 			fmt.Fprintln(os.Stderr, "bad replay file")
 			os.Exit(3)
 		}
-		cfg.only, cfg.tier, cfg.verbose = rf.Replay.Descriptor, "thorough", true
+		cfg.Only, cfg.Tier, cfg.Verbose = rf.Replay.Descriptor, "thorough", true
 		acc := ev.NewAcc()
-		run(cfg, acc)
+		diffexec.Run(cfg, acc)
 		os.RemoveAll(work)
 		if len(acc.Violations) > 0 {
 			fmt.Println(acc.Violations[0].Msg)
@@ -490,7 +51,7 @@ func main() {
 		return
 	}
 	acc := ev.NewAcc()
-	run(cfg, acc)
+	diffexec.Run(cfg, acc)
 	os.RemoveAll(work)
 	rule := "programs = every (position x form) of the grammar: 20 statement positions (function tail / non-tail, if-then, early return, else, if/else returns, else-if chain, three-clause / condition-only / range loops, before break/continue, bare blocks, closure body, nested loops, two ifs deep, pointer- and value-receiver method bodies; quick: 11 of them) x all statement and expression forms (arithmetic, comparison and boolean operators per width, conversions, strings, assignment and op-assign to every l-value kind, inc/dec, define/var, multiple assignment and 2/3/4-value destructuring, maps, slices incl. slices of structs, struct values/pointers/nested fields, pointers, calls, methods, recursion, closures, constants, machine primitives, compound statements), each with the whole environment (variables, struct value and pointer, slice, slice of structs, map) observed in the result; each program translated by the real goose, executed natively by Go and on the GooseLang reference interpreter on 28 boundary input vectors; non-trivial = program with at least one input on which Go returns normally; constructs with known translation defects are enumerated in dedicated families never used by core programs"
 	if *prop == "C02" {
@@ -503,9 +64,3 @@ func main() {
 	}))
 }
 
-func min(a, b int) int {
-	if a < b {
-		return a
-	}
-	return b
-}
